@@ -8,7 +8,7 @@ M=/var/tmp/mrepo
 [ -d $M ] || git -C /repo worktree add -q --detach $M HEAD || exit 2
 [ "$(git -C $M rev-parse HEAD)" = "$(git -C /repo rev-parse HEAD)" ] || git -C $M checkout -q --detach "$(git -C /repo rev-parse HEAD)"
 trap 'git -C $M checkout -q -- .; git -C $M clean -fdq' EXIT INT TERM
-git -C $M checkout -q -- .
+git -C $M checkout -q -- .; git -C $M clean -fdq
 P="$(pwd)/seeded/$id/patch.diff"; [ -f "$P" ] || P="$(pwd)/harmless/$id/patch.diff"; git -C $M apply "$P" || { echo "$id APPLY-FAILED"; exit 2; }
 export VERIF_REPO=$M
 for c in "$@"; do
